@@ -1139,6 +1139,11 @@ class AttrParser(BaseParser):
         not allow classes to self-reference.
         """
         span: Span
+        hex_components: tuple[bool, bool] = (False, False)
+        """
+        For a complex value, whether the real and imaginary parts were written as
+        hexadecimal literals (the bit patterns of floating-point values).
+        """
 
         def to_int(
             self,
@@ -1177,8 +1182,17 @@ class AttrParser(BaseParser):
         ) -> tuple[float, float] | tuple[int, int]:
             assert isinstance(self.value, tuple)
 
-            if isinstance(type.element_type, AnyFloat):
-                return (float(self.value[0]), float(self.value[1]))
+            if isinstance(element_type := type.element_type, AnyFloat):
+                # Hexadecimal literals are the bit pattern of the float
+                real, imag = (
+                    element_type.unpack(
+                        int(v).to_bytes(element_type.compile_time_size, "little"), 1
+                    )[0]
+                    if is_hex
+                    else float(v)
+                    for v, is_hex in zip(self.value, self.hex_components)
+                )
+                return (real, imag)
 
             match type.element_type:
                 case IntegerType():
@@ -1262,18 +1276,43 @@ class AttrParser(BaseParser):
     def _parse_optional_complex(
         self,
     ) -> tuple[tuple[float, float] | tuple[int, int] | tuple[bool, bool], Span] | None:
+        if (res := self._parse_optional_complex_components()) is None:
+            return None
+        return res[0], res[1]
+
+    def _parse_optional_complex_components(
+        self,
+    ) -> (
+        tuple[
+            tuple[float, float] | tuple[int, int] | tuple[bool, bool],
+            Span,
+            tuple[bool, bool],
+        ]
+        | None
+    ):
+        """
+        Parse a complex literal, and additionally return which of its parts were
+        written as hexadecimal literals.
+        """
         if self._current_token.kind != MLIRTokenKind.L_PAREN:
             return None
 
         token = self._consume_token(MLIRTokenKind.L_PAREN)
         start = token.span.start
         input = token.span.input
-        real, _ = self._parse_bool_int_or_float()
+        real, real_span = self._parse_bool_int_or_float()
         self.parse_punctuation(",")
-        imag, _ = self._parse_bool_int_or_float()
+        imag, imag_span = self._parse_bool_int_or_float()
         real_ty = type(real)
         imag_ty = type(imag)
-        if real_ty != imag_ty:
+        hex_components = (
+            real_ty is int and real_span.text[:2] in ("0x", "0X"),
+            imag_ty is int and imag_span.text[:2] in ("0x", "0X"),
+        )
+        # A hexadecimal literal may stand for a float next to a float literal
+        if real_ty != imag_ty and not (
+            {real_ty, imag_ty} == {int, float} and any(hex_components)
+        ):
             self.raise_error(
                 "Complex value must be either (float, float) or (int, int)"
             )
@@ -1281,7 +1320,7 @@ class AttrParser(BaseParser):
         end = token.span.end
         value = (real, imag)
         span = Span(start, end, input)
-        return value, span
+        return value, span, hex_components
 
     def _parse_bool_int_or_float(
         self,
@@ -1299,9 +1338,9 @@ class AttrParser(BaseParser):
         if scalar_span := self._parse_optional_bool_int_or_float():
             value, span = scalar_span
             return self._TensorLiteralElement(value < 0, value, span)
-        elif complex_span := self._parse_optional_complex():
-            value, span = complex_span
-            return self._TensorLiteralElement(False, value, span)
+        elif complex_span := self._parse_optional_complex_components():
+            value, span, hex_components = complex_span
+            return self._TensorLiteralElement(False, value, span, hex_components)
 
         self.raise_error("Expected either a float, integer, or complex literal")
 
